@@ -72,17 +72,17 @@ def seq_spec(prop, sweep, quick, thorough, rule, after_op=None, tier_kw=None, pr
 
 
 seq_spec("C01", Q.sweep_C01, 10000, 300000, "seeded histories of all write requests over 4 stem profiles; a run is non-trivial when the model holds >= 3 pages at a sweep; distinct = distinct event digests (ops, answers, write log)")
-seq_spec("C02", Q.sweep_C02, 4000, 100000, "seeded histories; non-trivial when the tree has >= 3 levels and at least one left and one right sibling link; distinct = distinct event digests")
-seq_spec("C03", Q.sweep_C03, 2500, 50000, "seeded link histories; non-trivial when >= 3 link submissions over >= 2 distinct pairs; distinct = distinct event digests")
+seq_spec("C02", Q.sweep_C02, 6000, 100000, "seeded histories; non-trivial when the tree has >= 3 levels and at least one left and one right sibling link; distinct = distinct event digests")
+seq_spec("C03", Q.sweep_C03, 4000, 50000, "seeded link histories; non-trivial when >= 3 link submissions over >= 2 distinct pairs; distinct = distinct event digests")
 seq_spec("C04", Q.sweep_C04, 8000, 200000, "seeded webentity edit histories; the LRUs a request names are also resolved immediately before and immediately after it; non-trivial when >= 2 webentities exist at a sweep; distinct = distinct event digests", pre_op=Q.pre_op_C04, after_op=Q.after_op_C04)
 seq_spec("C05", Q.sweep_C05, 10000, 300000, "seeded histories; non-trivial when >= 2 webentities and >= 3 resolvable pages; distinct = distinct event digests")
 seq_spec("C06", Q.sweep_C06, 8000, 250000, "seeded rule configurations x histories; non-trivial when >= 2 automatic creations happened; distinct = distinct event digests")
 seq_spec("C07", Q.sweep_C07, 6000, 150000, "seeded histories; non-trivial when the webentity network has >= 1 edge and >= 2 webentities; distinct = distinct event digests")
-seq_spec("C08", Q.sweep_C08, 3000, 70000, "seeded histories; non-trivial when >= 2 webentities and >= 2 distinct links; distinct = distinct event digests")
+seq_spec("C08", Q.sweep_C08, 4500, 70000, "seeded histories; non-trivial when >= 2 webentities and >= 2 distinct links; distinct = distinct event digests")
 seq_spec("C12", Q.sweep_C12, 15000, 500000, "seeded creation/deletion/restart histories; non-trivial when >= 2 ids were issued; distinct = distinct event digests")
 seq_spec("C13", Q.sweep_C13, 10000, 300000, "seeded histories; non-trivial when some webentity has a child webentity; distinct = distinct event digests")
 seq_spec("C19", Q.sweep_C19, 8000, 200000, "seeded histories biased to long stems; non-trivial when >= 5 nodes or a tail block exists; distinct = distinct event digests", after_op=Q.after_op_C19)
-seq_spec("C20", lambda ctx: Q.sweep_C20(ctx, known), 2500, 60000, "seeded link histories; non-trivial when >= 2 distinct links and a webentity exist; distinct = distinct event digests")
+seq_spec("C20", lambda ctx: Q.sweep_C20(ctx, known), 4000, 60000, "seeded link histories; non-trivial when >= 2 distinct links and a webentity exist; distinct = distinct event digests")
 
 # ---------------------------------------------------------------------------
 from . import pagination as P
@@ -103,7 +103,7 @@ register(
         assumptions=ASSUME,
     )
 )
-seq_spec("C10", P.sweep_C10, 2500, 50000, final=P.final_C10, extend_case=P.extend_C10, rule="seeded link histories, then token chains for every webentity x source-page counts x 3 switch settings compared with the unpaginated answer of the same index; non-trivial when a chain needs >= 3 calls; distinct = distinct event digests")
+seq_spec("C10", P.sweep_C10, 4000, 50000, final=P.final_C10, extend_case=P.extend_C10, rule="seeded link histories, then token chains for every webentity x source-page counts x 3 switch settings compared with the unpaginated answer of the same index; non-trivial when a chain needs >= 3 calls; distinct = distinct event digests")
 
 # ---------------------------------------------------------------------------
 from . import queries as QQ
@@ -145,7 +145,7 @@ register(
         "C14",
         _gen_C14,
         QQ.run_C14,
-        3000,
+        4000,
         100000,
         "exploration",
         "seeded states (file back-end on SimDisk, memory back-end, or - 30% of file runs - the states a process finds after a crash cut of the write log) x every read-only entry point (~45 methods, present / absent / unknown arguments, valid and stale tokens, generators abandoned half-way); non-trivial when the state holds pages and webentities; distinct = distinct event digests",
@@ -164,7 +164,7 @@ register(
         "C15",
         T.gen_C15,
         T.run_C15,
-        1500,
+        2000,
         35000,
         "exploration",
         "twin run: Traph(folder=None) and a fresh file-backed Traph (SimDisk, or real files in 20% of runs for the mmap clause) with the same constructor configuration (rules, overwrite flag) and the same seeded history; reports, refusals, answers and store bytes compared after every request; non-trivial when >= 3 pages; distinct = distinct event digests",
@@ -179,7 +179,7 @@ register(
         "C11",
         T.gen_C11,
         T.run_C11,
-        500,
+        700,
         15000,
         "fault_enumeration",
         "per sampled history: close+reopen inserted at EVERY position (one variant per position, all enumerated), plus seeded multi-restart sets and 'reopen after every request', plus clear(default, rules) at seeded positions against a fresh index; every variant compared request by request (outcome, bytes of both stores) and answer by answer with the never-closed baseline; non-trivial when >= 3 requests and >= 2 pages; distinct = distinct baseline digests",
@@ -198,7 +198,7 @@ register(
         "C18",
         CR.gen_C18,
         CR.run_C18,
-        600,
+        800,
         10000,
         "fault_enumeration",
         "per sampled write history: EVERY cut of its program-ordered write log is reconstructed (block granularity for all events; byte granularity for appends: first byte, last-but-one byte, seeded interior offsets) and reopened by the real constructor, then swept with every read-only traversal; a seeded sample of cuts is also executed as in-line crashes (exception out of SimFile.write) and must leave the same bytes; non-trivial when the log has >= 20 events and >= 10 crash states were accepted and swept; distinct = distinct write-log digests",
